@@ -53,7 +53,7 @@ def h_pull(ctx, mods, shape):
         ctx.fail('connect failed', detail=repr(o.exc))
         return
     state['base'] = w.wire.reads
-    op = ops.Pull(recs=shape['recs'], dest=shape.get('dest', 'bytesio'), cb=shape.get('cb'))
+    op = ops.Pull(recs=shape['recs'], dest=shape.get('dest', 'bytesio'), cb=shape.get('cb'), preexisting=shape.get('preexisting'))
     exp = op.setup(ctx, st, w, 0)
     if shape.get('big'):
         total, rec = shape['big']
@@ -131,6 +131,8 @@ def shapes(tier, seed):
             for dest in ('bytesio', 'path'):
                 for cb in (None, 'rec', 'raise'):
                     out.append({'h': 'pull', 'impl': impl, 'recs': recs, 'cuts': 1, 'dest': dest, 'cb': cb})
+        for recs in ([], [0], [2]):
+            out.append({'h': 'pull', 'impl': impl, 'recs': recs, 'cuts': 0, 'dest': 'path', 'preexisting': True})
         for recs in ([2, 1], [3]):
             for i in range(4):
                 out.append({'h': 'pull', 'impl': impl, 'recs': recs, 'cuts': 1, 'frag': 1, 'part': [i, 4]})
